@@ -122,7 +122,7 @@ def run(tier):
         cmds.append(r.cmd)
     bylaw = {}
     for rec in recs:
-        bylaw.setdefault(_lawkey(rec["law"]), (rec["law"], []))[1].append(rec["pt"])
+        bylaw.setdefault(_lawkey(rec["law"]) + "|%d" % len(rec["pt"]["x"]), (rec["law"], []))[1].append(rec["pt"])
     jobs = []
     for k, (law, pts) in bylaw.items():
         for variant in (0, 1):
